@@ -307,7 +307,7 @@ def run(ctx):
         cases.append(gen_closure(rng, quick))
     while sum(c["t"] == "vspace" for c in cases) < nvs:
         cases.append(gen_vspace(rng))
-    obs = ctx.run_impl("c55_impl.py", {"cases": cases})
+    obs = ctx.run_impl("c55_impl.py", {"cases": cases}, timeout=(420 if quick else 1500))
 
     terms, owners = [], []        # Gallina cases and (case index, label)
     hist = {"closure_cases": 0, "vspace_cases": 0, "coq_closure": 0, "coq_closure_negative_controls": 0, "coq_struct": 0,
